@@ -168,8 +168,7 @@ class EmitExtract(AcceptExtract):
                     out.append(["val", "?", spec])
                     continue
                 inner = self.sval(a, env)
-                if spec == "" and all(i[0] != "val" or i[2] == "" for i in inner) and \
-                        not (len(inner) == 1 and inner[0][0] == "val"):
+                if spec == "" and not (len(inner) == 1 and inner[0][0] == "val"):
                     out += inner            # a string spliced without formatting
                 elif len(inner) == 1 and inner[0][0] == "val":
                     out.append(["val", inner[0][1], spec or inner[0][2]])
